@@ -98,8 +98,12 @@ pub mod site {
     pub const TASKSET_TAKE_BEFORE_CAS: u32 = 51;
     // Single-threaded executor.
     pub const ST_BEFORE_RUN: u32 = 52;
+
+    pub const INJECTOR_INSERT_BEFORE_FLAG: u32 = 53;
+    pub const INJECTOR_PUSH_BEFORE_FLAG: u32 = 54;
+    pub const INJECTOR_POP_BEFORE_FLAG: u32 = 55;
     /// Number of probe sites (one more than the largest identifier).
-    pub const COUNT: usize = 53;
+    pub const COUNT: usize = 56;
 }
 
 static PROBE: AtomicPtr<()> = AtomicPtr::new(ptr::null_mut());
